@@ -33,6 +33,9 @@ const EXTRA: &[&str] = &[";", "1.5", "5.8", "5.4", "7", "-1", "4294967296", "999
     "\u{540d}\u{540d}\u{540d}\u{540d}\u{540d}\u{540d}\u{540d}\u{540d}\u{540d}\u{540d}\u{540d}",
     "\u{1f600}\u{1f600}\u{1f600}\u{1f600}\u{1f600}\u{1f600}\u{1f600}\u{1f600}\u{1f600}",
     "\u{e9}\u{e9}\u{e9}\u{e9}\u{e9}\u{e9}\u{e9}\u{e9}\u{e9}\u{e9}\u{e9}\u{e9}\u{e9}\u{e9}\u{e9}\u{e9}\u{e9}\u{e9}\u{e9}\u{e9}\u{e9}\u{e9}\u{e9}\u{e9}\u{e9}\u{e9}\u{e9}\u{e9}\u{e9}\u{e9}\u{e9}\u{e9}",
+    // string literals holding a line break after multi-byte characters (closed / unterminated); a lone carriage return
+    // glued to a number, to a number followed by U+00A0, and alone
+    "\"\u{65e5}\n\"", "\"\u{e9}\u{e9}\n", "\r5.8", "\r0.005\u{a0};", "\r",
     "7922816251426433759354395034", "79228162514264337593543950335", "-79228162514264337593543950335", "0.0000000000000000000000000001", "1e29", "1e400",
 ];
 
